@@ -96,7 +96,9 @@ def rand_fields(rng, big=True):
     if rng.random() < 0.35:
         d["dev"] = n()
     if rng.random() < 0.3:
-        d["local"] = [rng.choice([n(), "abc", "x1", "ubuntu", "ubuntu2", "ubuntu20", "rc", "rc1", "a", "ab", "abc1", "g1234abc", "g1234abcd", "1a", "g" + "%x" % rng.randint(0, 2 ** 28)])
+        d["local"] = [rng.choice([n(), "abc", "x1", "ubuntu", "ubuntu2", "ubuntu20", "rc", "rc1", "a", "ab", "abc1", "g1234abc", "g1234abcd", "1a", "g" + "%x" % rng.randint(0, 2 ** 28),
+                                  # alphanumeric labels that START with digits / zeros (short commit hashes do): text, never numbers - no zero stripping
+                                  "0a", "00a", "0abc123", "0b", "007x", "1e5", "123abc", "0x10", "%07x" % rng.randint(0, 2 ** 20) + "f"])
                       for _ in range(rng.randint(1, 4))]
     return d
 
